@@ -127,8 +127,12 @@ class Ctx:
                             "states": res.distinct, "wall_s": round(res.wall, 2)})
             for f in verdict["fails"]:
                 rec = ch[f["line"] - 1]
+                # the records of the same trace up to the failing one (what a replay needs), capped
+                lo = f["line"] - 1
+                while lo > 0 and ch[lo - 1].get("tid") == rec.get("tid") and f["line"] - lo < 60:
+                    lo -= 1
                 fails.append({"clause": f["clause"], "detail": {k: v for k, v in f.items() if k not in ("line", "clause")},
-                              "record": rec, "trace": name})
+                              "record": rec, "trace": name, "module": module, "cfg": cfg, "prefix": ch[lo:f["line"]]})
             for c in verdict.get("clauses", []):
                 self.clauses.add(c)
         self.lines += len(records)
@@ -190,7 +194,9 @@ class Ctx:
             if self._nrep <= 20:
                 with open(rp, "w") as fh:
                     json.dump({"property": self.pid, "clause": f["clause"], "detail": f["detail"],
-                               "record": f["record"], "trace": f.get("trace"), "context": context}, fh, indent=1, default=str)
+                               "record": f["record"], "trace": f.get("trace"), "context": context,
+                               "module": f.get("module"), "cfg": f.get("cfg"),
+                               "prefix": f.get("prefix") if len(str(f.get("prefix"))) < 400000 else None}, fh, indent=1, default=str)
             self.violations.append({"clause": f["clause"], "replay": rp, "record": f["record"]})
 
     def sample(self, x, cap=6):
@@ -249,6 +255,21 @@ class Ctx:
             self.pid, self.tier, states, trans, self.traces, self.lines, len(self.violations), len(self.known), wall))
         shutil.rmtree(self.scratch, ignore_errors=True)
         return 1 if self.violations else 0
+
+
+def generic_replay(ctx, rep):
+    """Re-judge a saved violation: the recorded trace prefix is validated again by the TLC trace spec and the
+    clauses that fail on its last record are reported (exit 1 if the saved clause still fails)."""
+    pre = rep.get("prefix") or [rep["record"]]
+    module, cfg = rep.get("module"), rep.get("cfg") or "Trace.cfg"
+    if not module:
+        print(json.dumps(rep["record"], indent=1)[:4000])
+        return
+    fails = ctx.validate(module, cfg, pre, name="replay", ntraces=1)
+    last = [f for f in fails if f["record"] is pre[-1] or f["record"] == pre[-1]]
+    print("replayed %d record(s) of trace %r through %s: clauses failing on the last record: %s" % (
+        len(pre), rep.get("trace"), module, sorted({f["clause"] for f in last}) or "none"))
+    ctx.judge([f for f in last if f["clause"] == rep["clause"]])
 
 
 def main_run(pid, tier, seed, runner, no_evidence=False):
